@@ -46,6 +46,10 @@ pub enum Dest {
     Removed,
     HubItself,
     Empty,
+    /// a trusted name in another letter case
+    TrustedOtherCase,
+    /// a trusted name with a trailing space
+    TrustedTrailingSpace,
 }
 
 #[derive(Clone, Copy, Debug, Serialize, Deserialize, PartialEq, Eq)]
@@ -104,7 +108,7 @@ impl Property for C18 {
         "C18"
     }
     fn rule(&self) -> &'static str {
-        "proptest single cases: token (ITS-deployed with 5 metadata classes incl. multi-byte names, decimals 0/255, 32/33-byte strings; Stellar asset contract registered as canonical; harness token with metadata ok / multi-byte / decimals 255 / empty name / empty symbol / decimals 256 registered as canonical; ITS-deployed token addressed through the canonical entry point; unregistered salt / asset) x caller (original deployer, another address reusing the salt) x destination (trusted, never trusted, removed again, the hub chain itself, empty) x gas (0, negative, affordable, exact balance, balance+1) x payer authorised or not. Oracle: success iff id registered for the caller's own (deployer,salt) / the canonical address, destination trusted, metadata representable, payer authorised a positive affordable payment; then returned id = independent derivation, exactly one contract_called to the hub whose payload equals the harness's own ABI encoding of SendToHub{destination, Deploy{id,name,symbol,decimals,no minter}}, a gas payment event with the same payload hash, payer and amount, one service event naming the id and the actual metadata, and the only balance change is the gas payment; otherwise failure with the ledger snapshot identical. non-trivial = every case except the suite's fixed happy path; distinct by Debug hash"
+        "proptest single cases: token (ITS-deployed with 5 metadata classes incl. multi-byte names, decimals 0/255, 32/33-byte strings; Stellar asset contract registered as canonical; harness token with metadata ok / multi-byte / decimals 255 / empty name / empty symbol / decimals 256 registered as canonical; ITS-deployed token addressed through the canonical entry point; unregistered salt / asset) x caller (original deployer, another address reusing the salt) x destination (trusted, never trusted, removed again, the hub chain itself, empty, a trusted name in another letter case / with a trailing space) x gas (0, negative, affordable, exact balance, balance+1) x payer authorised or not. Oracle: success iff id registered for the caller's own (deployer,salt) / the canonical address, destination trusted, metadata representable, payer authorised a positive affordable payment; then returned id = independent derivation, exactly one contract_called to the hub whose payload equals the harness's own ABI encoding of SendToHub{destination, Deploy{id,name,symbol,decimals,no minter}}, a gas payment event with the same payload hash, payer and amount, one service event naming the id and the actual metadata, and the only balance change is the gas payment; otherwise failure with the ledger snapshot identical. non-trivial = every case except the suite's fixed happy path; distinct by Debug hash"
     }
     fn cases(&self, tier: Tier) -> u64 {
         tier.pick(15000, 150000)
@@ -113,7 +117,7 @@ impl Property for C18 {
         (
             tok(),
             prop_oneof![3 => Just(Who::OriginalDeployer), 1 => Just(Who::OtherReusingSalt)],
-            prop_oneof![6 => Just(Dest::Trusted), 1 => Just(Dest::NeverTrusted), 1 => Just(Dest::Removed), 1 => Just(Dest::HubItself), 1 => Just(Dest::Empty)],
+            prop_oneof![6 => Just(Dest::Trusted), 1 => Just(Dest::NeverTrusted), 1 => Just(Dest::Removed), 1 => Just(Dest::HubItself), 1 => Just(Dest::Empty), 1 => Just(Dest::TrustedOtherCase), 1 => Just(Dest::TrustedTrailingSpace)],
             prop_oneof![1 => Just(GasC::Zero), 1 => Just(GasC::Negative), 5 => (1u16..500).prop_map(GasC::Affordable), 1 => Just(GasC::ExactBalance), 1 => Just(GasC::BalancePlusOne)],
             prop_oneof![6 => Just(true), 1 => Just(false)],
         )
@@ -209,6 +213,8 @@ impl Property for C18 {
             Dest::Removed => "to-be-removed",
             Dest::HubItself => HUB_CHAIN,
             Dest::Empty => "",
+            Dest::TrustedOtherCase => "Ethereum",
+            Dest::TrustedTrailingSpace => "ethereum ",
         };
         let dest_trusted = case.dest == Dest::Trusted;
         let gas_amount: i128 = match case.gas {
